@@ -238,6 +238,8 @@ type conn struct {
 	clientSent, serverSent     int
 	faulted                    bool
 	clientPhases, serverPhases bool
+	clientPhaseDone            chan struct{} // closed when the client has finished writing and probing
+	serverPhaseDone            chan struct{}
 	// simulated times of half-closes and end-of-stream probes (-1 = never)
 	cwAt, probeStart, probeEnd map[byte]time.Duration
 }
@@ -258,7 +260,18 @@ func (h *harness) rendezvous(c *conn, server bool) {
 		if other || gone || h.s.PassThrough() {
 			return
 		}
-		time.Sleep(time.Millisecond + 3*time.Microsecond)
+		// (Woken by the other peer's announcement at the instant it is made,
+		// whichever of the two runs first inside a step; the tick only serves
+		// the conditions that have no announcement.)
+		otherDone := c.clientPhaseDone
+		if !server {
+			otherDone = c.serverPhaseDone
+		}
+		select {
+		case <-otherDone:
+			return
+		case <-time.After(time.Millisecond + 3*time.Microsecond):
+		}
 	}
 }
 
@@ -476,7 +489,7 @@ func execRelay(t *testing.T, plan *simkit.Plan) *simkit.Result {
 			}
 			i := idx
 			idx++
-			c := &conn{name: op.Actor, op: op, dialed: make(chan struct{}),
+			c := &conn{name: op.Actor, op: op, dialed: make(chan struct{}), clientPhaseDone: make(chan struct{}), serverPhaseDone: make(chan struct{}),
 				cwAt: map[byte]time.Duration{'c': -1, 's': -1}, probeStart: map[byte]time.Duration{'c': -1, 's': -1}, probeEnd: map[byte]time.Duration{'c': -1, 's': -1}}
 			h.conns = append(h.conns, c)
 			clientBytes, serverBytes := int(op.Int(0)), int(op.Int(1))
@@ -502,6 +515,7 @@ func execRelay(t *testing.T, plan *simkit.Plan) *simkit.Result {
 				got, eof, err := h.peer(c, i, c.clientLink.A, c.name+".client", 'c', clientBytes, serverBytes, clientHalf, serverHalf, order != 1)
 				h.mu.Lock()
 				c.clientPhases = true
+				close(c.clientPhaseDone)
 				h.mu.Unlock()
 				h.rendezvous(c, false)
 				s.Gate(c.name+".client", "close")
@@ -532,6 +546,7 @@ func execRelay(t *testing.T, plan *simkit.Plan) *simkit.Result {
 				got, eof, err := h.peer(c, i, c.serverLink.B, c.name+".server", 's', serverBytes, clientBytes, serverHalf, clientHalf, order != 0)
 				h.mu.Lock()
 				c.serverPhases = true
+				close(c.serverPhaseDone)
 				h.mu.Unlock()
 				h.rendezvous(c, true)
 				s.Gate(c.name+".server", "close")
